@@ -1,12 +1,72 @@
 package main
 
 import (
+	"encoding/json"
 	"fmt"
 
+	"github.com/google/tink/go/keyset"
+	"github.com/google/tink/go/mac"
+
+	"github.com/hyperledger/aries-framework-go/component/storage/edv"
 	"github.com/hyperledger/aries-framework-go/component/storageutil/formattedstore"
+	"github.com/hyperledger/aries-framework-go/component/storageutil/mem"
+	cryptoapi "github.com/hyperledger/aries-framework-go/pkg/crypto"
+	"github.com/hyperledger/aries-framework-go/pkg/crypto/tinkcrypto"
+	"github.com/hyperledger/aries-framework-go/pkg/doc/jose"
+	"github.com/hyperledger/aries-framework-go/pkg/kms"
+	"github.com/hyperledger/aries-framework-go/pkg/kms/localkms"
+	mockkms "github.com/hyperledger/aries-framework-go/pkg/mock/kms"
+	"github.com/hyperledger/aries-framework-go/pkg/secretlock/noop"
 )
 
-// extraFormatter builds formatters that need key material (EDV encrypted formatter).
+// extraFormatter builds the real EDV encrypted formatter (own KMS, real JWE encrypter/decrypter, real MAC):
+// "edvdet" = deterministic document ids, "edvrand" = random document ids.
 func extraFormatter(name string) (formattedstore.Formatter, error) {
-	return nil, fmt.Errorf("unknown formatter %q", name)
+	if name != "edvdet" && name != "edvrand" {
+		return nil, fmt.Errorf("unknown formatter %q", name)
+	}
+
+	p, err := mockkms.NewProviderForKMS(mem.NewProvider(), &noop.NoLock{})
+	if err != nil {
+		return nil, err
+	}
+
+	k, err := localkms.New("local-lock://c11", p)
+	if err != nil {
+		return nil, err
+	}
+
+	c, err := tinkcrypto.New()
+	if err != nil {
+		return nil, err
+	}
+
+	_, pkb, err := k.CreateAndExportPubKeyBytes(kms.NISTP256ECDHKWType)
+	if err != nil {
+		return nil, err
+	}
+
+	pk := new(cryptoapi.PublicKey)
+	if err = json.Unmarshal(pkb, pk); err != nil {
+		return nil, err
+	}
+
+	enc, err := jose.NewJWEEncrypt(jose.A256GCM, "application/JSON", "", "", nil, []*cryptoapi.PublicKey{pk}, c)
+	if err != nil {
+		return nil, err
+	}
+
+	dec := jose.NewJWEDecrypt(nil, c, k)
+
+	kh, err := keyset.NewHandle(mac.HMACSHA256Tag256KeyTemplate())
+	if err != nil {
+		return nil, err
+	}
+
+	var opts []edv.EncryptedFormatterOption
+	if name == "edvdet" {
+		opts = append(opts, edv.WithDeterministicDocumentIDs())
+	}
+
+	return edv.NewEncryptedFormatter(enc, dec, edv.NewMACCrypto(kh, c), opts...), nil
 }
